@@ -107,6 +107,7 @@ func main() {
 	}
 
 	exit := 0
+	leaks := 0
 	runtime.GC()
 	time.Sleep(10 * time.Millisecond)
 	gBase := runtime.NumGoroutine()
@@ -144,7 +145,10 @@ func main() {
 				}
 			case "string":
 				ss := funcutil.Map(xs, func(x int) string { return fmt.Sprintf("s%d", x) })
-				f := func(s string) string { delay(c.prof, len(s)+int(s[len(s)-1]), c.n, c.salt); return strings.ToUpper(s) + "!" }
+				f := func(s string) string {
+					delay(c.prof, len(s)+int(s[len(s)-1]), c.n, c.salt)
+					return strings.ToUpper(s) + "!"
+				}
 				want := funcutil.Map(ss, func(s string) string { return strings.ToUpper(s) + "!" })
 				got := funcutil.MapParallel(ss, f, c.nr)
 				eq = len(got) == len(want)
@@ -186,7 +190,15 @@ func main() {
 			os.Exit(3)
 		}
 		ms := time.Since(start).Milliseconds()
-		g1 := settle(g0, 5*time.Second)
+		// a goroutine that is only slow to exit is given 5 s; once leaks have been seen the wait is cut short
+		wait := 5 * time.Second
+		if leaks >= 2 {
+			wait = 250 * time.Millisecond
+		}
+		g1 := settle(g0, wait)
+		if g1 > g0 {
+			leaks++
+		}
 		e := 0
 		if eq {
 			e = 1
